@@ -16,7 +16,7 @@ PROP = Property(
                     wraps=["ares_rand_bytes"],
                     ml_srcs=["ocaml/gen/%s.ml" % m for (_, _, m) in KINDS] + ["ocaml/dsa_reg.ml"]
                             + ["ocaml/dsa_%s.ml" % k for (k, _, _) in KINDS] + ["ocaml/dsa_drv.ml"],
-                    gen=opsgen.gen, n_quick=1500, n_thorough=10000)],
+                    gen=opsgen.gen, n_quick=1500, n_thorough=30000)],
     trusted_base=["Coq 8.16.1 kernel + coqc (vm_compute; no native_compute)",
                   "extraction (ExtrOcamlBasic only, no Extract Constant) + OCaml 4.13.1",
                   "gen/regen.py constants (ARES__ARRAY_MIN, ARES__HTABLE_*, status codes) compiled against the working tree",
@@ -36,11 +36,12 @@ PROP = Property(
                  "hash table: the hash function is any function compatible with the key equality (theorems quantify over it)"],
     generated_fns=["ares_buf_len", "ares_buf_consume", "ares_buf_tag", "ares_buf_tag_rollback", "ares_buf_tag_clear",
                    "ares_buf_tag_length", "ares_buf_set_length", "ares_buf_set_position", "ares_buf_get_position",
-                   "ares_buf_is_const", "ares_buf_append_finish",
+                   "ares_buf_is_const", "ares_buf_append_finish", "ares_buf_append_start",
                    # read side: the hand model is proved equal to these (Dsa/Buf_gen_agree.v)
-                   "ares_buf_fetch_be16", "ares_buf_peek_byte", "ares_buf_fetch_bytes",
+                   "ares_buf_fetch_be16", "ares_buf_fetch_be32", "ares_buf_peek_byte", "ares_buf_fetch_bytes",
                    # containers (Dsa/Dsa_gen_agree.v)
                    "ares_array_set_size", "ares_array_remove_last", "ares_array_len", "ares_slist_max_level",
-                   "ares_slist_len", "ares_llist_len", "ares_htable_num_keys"],
+                   "ares_slist_len", "ares_llist_len", "ares_htable_num_keys",
+                   "ares_llist_node_detach"],  # Dsa/LList_gen_agree.v
     rule="random/boundary-directed operation sequences per container; non-trivial = at least two state-changing operations succeeded in the model; distinct by case text",
 )
